@@ -94,7 +94,7 @@ Definition range_of (e : param) : option (Z * Z) :=
 (* specification of _vnacal_new_check_parameter / _vnacal_new_get_parameter: the parameter in slot n
    covers the frequency range of the vnacal_new_t (no requirement before set_frequency_vector) *)
 Definition in_range (t : ptable) (v : vnew) (n : nat) : Prop :=
-  vn_fvalid v = false \/
+  vn_ranged v = false \/
   exists e, ends_at t n e /\ range_ok (range_of e) (vn_f0 v) (vn_fmax v) = true.
 
 (* a handle is acceptable in a standard given to vnacal_new_t v: either v already holds it (then it
